@@ -182,6 +182,40 @@ def run():
     _write(p2, M2)
     results["pytrace_alone_cannot_see_it"] = core.validate_trace("selftest_pyenv_label_plain", "PyTrace", p2, consts={"MaxPrice": MAXPRICE})["accepted"]
     log("[selftest] the same relabelled trace under PyTrace alone: %s" % ("accepted (the engine adds the power)" if results["pytrace_alone_cannot_see_it"] else "rejected"))
+    # ---- 1b. helper-function traces (HelperTrace.tla): a quote moved one tick to the wrong side of the mid-price, and a
+    #          cancellation helper that "keeps" an id it was not given, are rejected at that event ---------------------------
+    ht = os.path.join(d, "helpers.ndjson")
+    subprocess.run([os.path.join(core.BIN, "record_helpers"), "--out", ht, "--seed", "3", "--runs", "20", "--ops", "0", "--profile", "{}"], check=True, capture_output=True)
+    H = _lines(ht)
+    tick_of, cur = {}, 1
+    for k, e in enumerate(H):
+        if e["op"] == "reset":
+            cur = e["tick"]
+        tick_of[k] = cur
+    i_q = [k for k, e in enumerate(H) if e["op"] == "quote" and e["buy"] and e["a4"] == [0, 0] and e["m2"][0] < 1000 and e["m2"][1] % 2 == 0
+           and (e["m2"][1] // 2) % tick_of[k] == 0 and e["m2"][1] + 2 * tick_of[k] < 65536][0]
+
+    def above_mid(e):
+        # distance 0 and the mid-price on the grid: the buy is quoted AT the mid-price; one tick higher is above it
+        e["order"]["price"][1] += tick_of[i_q]
+    results["helper_buy_above_mid_price"] = _expect_reject("helper_buy_above_mid_price", "HelperTrace", H, i_q, above_mid, consts={}, why="buy_at_or_below_mid")
+    i_c = [k for k, e in enumerate(H) if e["op"] == "cancel_live" and e["instrs"]][0]
+    results["helper_cancel_kept_and_cancelled"] = _expect_reject("helper_cancel_kept_and_cancelled", "HelperTrace", H, i_c,
+                                                                 lambda e: e["kept"].append(e["instrs"][0]["id"]), consts={}, why="kept_")
+    # ---- 1c. known finding F3 as a named deviation: with FollowF3 = TRUE the specification reproduces the code on histories with
+    #          off-grid modify requests and flags its own off-grid states; with FollowF3 = FALSE (the property) the same histories
+    #          are mismatches - the deviation is real, and it is the ONLY thing the flag absorbs ---------------------------------
+    from .runner import Check as _Check
+    from . import props as _props
+    for follow in (True, False):
+        ckf = _Check("SELFTEST", "quick", 1)
+        tl, summ = _props.book_gen(ckf, "f3_follow_%s" % follow, Ops=["cap", "modify"], Tick=2, Prices=[10, 12], Vols=[1], Kinds=["L"],
+                                   ModPrices=[-1, 11, 12], ModVols=["none"], MaxOrders=2, MaxOps=3, FollowF3=follow)
+        if follow:
+            results["f3_deviation_reproduces_the_code_and_is_flagged_by_TLC"] = summ.get("n_mismatch", 1) == 0 and summ.get("n_spec_flags", 0) > 0
+        else:
+            results["f3_without_the_deviation_the_code_mismatches"] = summ.get("n_mismatch", 0) > 0 and summ.get("n_spec_flags", 0) == 0
+        log("[selftest] off-grid modify requests, FollowF3 = %s: %d mismatches, %d histories flagged by the specification" % (follow, summ.get("n_mismatch", 0), summ.get("n_spec_flags", 0)))
     # ---- 2. mutated specifications -----------------------------------------------------------
     for m in SPEC_MUTATIONS:
         results["spec_mutation_" + m[0]] = _mutated_gen(*m)
